@@ -1988,6 +1988,7 @@ impl Verbatim {
     /// # }
     /// ```
     pub fn new(samples: &[i32], bits_per_sample: usize) -> Result<Self, VerifyError> {
+        verify_block_size!("samples.len", samples.len())?;
         verify_bps!("bits_per_sample", bits_per_sample)?;
         for v in samples {
             verify_sample_range!("samples", *v, bits_per_sample)?;
